@@ -60,7 +60,11 @@ def tell(msg: str) -> None:
             velocity = adsb.velocity(msg)
             if velocity is not None:
                 spd, trk, vr, t = velocity
-                types = {"GS": "Ground speed", "TAS": "True airspeed"}
+                types = {
+                    "GS": "Ground speed",
+                    "TAS": "True airspeed",
+                    "IAS": "Indicated airspeed",
+                }
                 _print("Speed", spd, "knots")
                 _print("Track", trk, "degrees")
                 _print("Vertical rate", vr, "feet/minute")
@@ -99,6 +103,7 @@ def tell(msg: str) -> None:
                 vertical_horizontal_types = {
                     1: "Acquiring mode",
                     2: "Capturing/Maintaining mode",
+                    3: "Reserved",
                 }
                 tcas_ra_types = {0: "Not active", 1: "Active"}
                 alt, alt_source, alt_ref = adsb.target_altitude(msg)
